@@ -147,11 +147,14 @@ def run(sc):
     dense = sc['kind'].startswith('ct')
     names = names_of(sc)
     poison = sc.get('poison') if (sc['mode'] == 'on' and not dense and not sc['pastify']) else None
-    if poison:
-        names = [x for x in names if x[0] != 'out']      # no claim about the assertion that failed
     if not common.ref_defined([a for _, a in names], dense, sc['signals'] if dense else sc['data'], sc.get('n')):
         r.discarded = True
         return r
+    if poison:
+        if not common.ref_defined_on_prefixes([a for _, a in names], sc['data'], sc['n']):
+            r.discarded = True
+            return r
+        names = [x for x in names if x[0] != 'out']      # no claim about the assertion that failed
     pd = parent_desc(sc if poison else dict(sc, poison=None))
     used = sg.vars_of(sc['ast']) + [v for v in (sg.vars_of(sc['extra'][1]) if sc.get('extra') else []) if v not in sg.vars_of(sc['ast'])]
     try:
